@@ -3,7 +3,7 @@ from vlib import cN, cNhex, cbytes, cbool, clist, copt
 
 ID = "C13"
 PROPERTIES_V = ["theories/Properties/C13.v"]
-MAKE_TARGETS = ["theories/Properties/C13.vo", "theories/Model/C13Cases.vo"]
+MAKE_TARGETS = ["theories/Properties/C13.vo", "theories/Model/C13Cases.vo", "theories/Proofs/GenAgreeInitialState.vo"]
 HARNESS = "c13"
 CASES_IMPORTS = ("From Coq Require Import NArith List.\n"
                  "From Verif Require Import Base.Bytes Model.Reconcile Model.C13Cases.")
